@@ -219,6 +219,10 @@ def main():
         O.finish()
     render_all(base_txns(), {'case': 'base'})
     render_all(base_txns(), {'case': 'base', 'views': True}, views=True)
+    # views whose filters compare total / months / cv with a variable, an expression or a function value, not with a number literal
+    VARVIEWS = ('big = 50\nsteady = 0.5\n\n[Big]\nfilter: total > big\n\n[Regular]\nmin_months = 1\nfilter: months >= min_months and cv < steady\n\n'
+                '[Scaled]\nfilter: total > big * 2 or months >= max_val(1, period("month"))\n')
+    render_all(base_txns(), {'case': 'base', 'views': VARVIEWS}, views=VARVIEWS)
     zero = [T('Employer', 'Pay', 'Salary', -1000.0, 1, 31, ['income']), T('Shop', 'S', 'S', 1200.0, 2, 1), T('Shop', 'S', 'S', -200.0, 2, 9)]
     render_all(zero, {'case': 'zero_cash_flow'})
     render_all(zero, {'case': 'zero_cash_flow', 'views': True}, views=True)
